@@ -1,7 +1,9 @@
 /-
-C14 — helper lemmas, part 4: the hints do not depend on the back-end, visiting a source only adds factors for its
-own tables, and pushing the offered row filters into the scans of an inner-join tree only removes rows which the
-pending conditions reject anyway (`run_prune`).  Used by `ForML.Props.C14` (`C14_filter_partial`).
+C14 — helper lemmas, part 4: the parser state.  The hints do not depend on the back-end (`run_indep`), visiting a
+source only adds factors for its own tables (`run_factors`), every registered factor belongs to a table and comes from
+a condition registered so far (`FactorsTables`, `FromSeen`), the factors of the tables below a node come from the
+conditions pending above it (`Justified`) — for both variants of the parser (`fix`).
+Used by `ForML.Lemmas.C14Outer` (`run_prune`).
 -/
 import ForML.Lemmas.C14Prune
 import ForML.Lemmas.C14Cols
@@ -9,47 +11,62 @@ import ForML.Lemmas.C14Cols
 namespace ForML.PushDown
 open ForML.Dsl
 
-theorem filter_factors_mem {len : Bool} {st : Segs} {e : Feature} {x : Source × Feature}
-    (h : x ∈ (st.filter len e).factors) : x ∈ st.factors ∨ ∃ m, factorsOf len e = .ok m ∧ x ∈ m := by
+/-! ### membership in the factors after `filter` / `release` / `visit_join` -/
+
+theorem filter_factors_mem {fix len : Bool} {st : Segs} {e : Feature} {ex : List Source} {x : Source × Feature}
+    (h : x ∈ (st.filter fix len e ex).factors) :
+    x ∈ st.factors ∨ ∃ m, factorsOf len e = .ok m ∧ x ∈ m ∧ x.1 ∉ ex := by
   unfold Segs.filter at h
   cases hf : factorsOf len e with
   | ok m =>
     simp only [hf] at h
     rcases mem_addAll.mp h with h | h
     · exact Or.inl h
-    · exact Or.inr ⟨m, rfl, h⟩
+    · obtain ⟨hm, hx⟩ := List.mem_filter.mp h
+      exact Or.inr ⟨m, rfl, hm, by simpa using hx⟩
   | error x =>
     simp only [hf] at h
     exact Or.inl h
 
-theorem filter_factors_mono {len : Bool} {st : Segs} {e : Feature} {x : Source × Feature}
-    (h : x ∈ st.factors) : x ∈ (st.filter len e).factors := by
+theorem filter_factors_mono {fix len : Bool} {st : Segs} {e : Feature} {ex : List Source} {x : Source × Feature}
+    (h : x ∈ st.factors) : x ∈ (st.filter fix len e ex).factors := by
   unfold Segs.filter
   cases hf : factorsOf len e with
   | ok m => exact mem_addAll.mpr (Or.inl h)
   | error x => exact h
 
-theorem filter_factors_new {len : Bool} {st : Segs} {e : Feature} {m : FMap} {x : Source × Feature}
-    (hf : factorsOf len e = .ok m) (h : x ∈ m) : x ∈ (st.filter len e).factors := by
-  unfold Segs.filter
-  simp only [hf]
-  exact mem_addAll.mpr (Or.inr h)
-
-theorem filterOpt_factors_mem {len : Bool} {st : Segs} {c : FeatureOpt} {x : Source × Feature}
-    (h : x ∈ (st.filterOpt len c).factors) :
-    x ∈ st.factors ∨ ∃ p ∈ optList c, ∃ m, factorsOf len p = .ok m ∧ x ∈ m := by
+theorem filterOpt_factors_mem {fix len : Bool} {st : Segs} {c : FeatureOpt} {ex : List Source} {x : Source × Feature}
+    (h : x ∈ (st.filterOpt fix len c ex).factors) :
+    x ∈ st.factors ∨ ∃ p ∈ optList c, ∃ m, factorsOf len p = .ok m ∧ x ∈ m ∧ x.1 ∉ ex := by
   cases c with
   | none => exact Or.inl h
   | some c =>
-    rcases filter_factors_mem h with h | ⟨m, hm, hx⟩
+    rcases filter_factors_mem h with h | ⟨m, hm, hx, hex⟩
     · exact Or.inl h
-    · exact Or.inr ⟨c, by simp [optList], m, hm, hx⟩
+    · exact Or.inr ⟨c, by simp [optList], m, hm, hx, hex⟩
 
-theorem filterOpt_factors_mono {len : Bool} {st : Segs} {c : FeatureOpt} {x : Source × Feature}
-    (h : x ∈ st.factors) : x ∈ (st.filterOpt len c).factors := by
+theorem filterOpt_factors_mono {fix len : Bool} {st : Segs} {c : FeatureOpt} {ex : List Source} {x : Source × Feature}
+    (h : x ∈ st.factors) : x ∈ (st.filterOpt fix len c ex).factors := by
   cases c with
   | none => exact h
   | some c => exact filter_factors_mono h
+
+theorem release_factors_mem {st : Segs} {os : List Source} {x : Source × Feature} :
+    x ∈ (st.release os).factors ↔ x ∈ st.factors ∧ x.1 ∉ os := by
+  simp [Segs.release, List.mem_filter]
+
+/-- what `visit_join` leaves in the factors: what was there minus the released origins, and the factors of the
+condition minus the exempt origins -/
+theorem joinCtx_factors_mem {fix len : Bool} {st : Segs} {l r : Source} {k : JoinKind} {c : FeatureOpt}
+    {x : Source × Feature} (h : x ∈ (joinCtx fix len st l r k c).factors) :
+    (x ∈ st.factors ∧ x.1 ∉ released fix l r k) ∨
+      ∃ p ∈ optList c, ∃ m, factorsOf len p = .ok m ∧ x ∈ m ∧ x.1 ∉ exempt fix l r k := by
+  unfold joinCtx at h
+  rcases filterOpt_factors_mem h with h | h
+  · exact Or.inl (release_factors_mem.mp h)
+  · exact Or.inr h
+
+/-! ### scoping -/
 
 /-- the table of a factor is the origin of an element of the condition -/
 theorem factor_table_mem {len : Bool} {p : Feature} {m : FMap} {x : Source × Feature}
@@ -62,6 +79,11 @@ theorem factor_table_mem {len : Bool} {p : Feature} {m : FMap} {x : Source × Fe
   have ht := k.own e he
   cases e
   simp_all
+
+theorem factor_isTable {len : Bool} {p : Feature} {m : FMap} {x : Source × Feature}
+    (h : factorsOf len p = .ok m) (hx : x ∈ m) : isTable x.1 = true := by
+  obtain ⟨t, f⟩ := x
+  exact (factorsP_sound len trivialSem (toPred p) m h t f hx).table
 
 theorem scopedIn_mem {os : List Source} {F : List Feature} (h : scopedIn os F = true) {e : Elem} (he : e ∈ elemsAll F) :
     e.1 ∈ os := by
@@ -78,127 +100,195 @@ theorem elemsAll_optList {c : FeatureOpt} {p : Feature} (hp : p ∈ optList c) {
     subst hp
     simpa [elemsAll, optList] using he
 
-/-- tables and statements leave the factors of the enclosing context alone -/
-theorem run_factors_closed (len : Bool) (S : Sem) (B : Backend) (db : Db) :
-    ∀ (s : Source) (st : Segs), wellScoped s = true → (isTable s || isStmt s) = true →
-      (run len S B db s st).st.factors = st.factors
+/-- a factor of a scoped join condition belongs to an origin of the join -/
+theorem factor_in_scope {len : Bool} {l r : Source} {c : FeatureOpt}
+    (hs : scopedIn (origins l ++ origins r) (optList c) = true) {p : Feature} (hp : p ∈ optList c) {m : FMap}
+    (hm : factorsOf len p = .ok m) {x : Source × Feature} (hx : x ∈ m) : x.1 ∈ origins l ∨ x.1 ∈ origins r := by
+  obtain ⟨n, hn⟩ := factor_table_mem hm hx
+  simpa using scopedIn_mem hs (elemsAll_optList hp hn)
+
+/-! ### invariants of the parser state -/
+
+/-- every registered factor belongs to a table (never to a reference) -/
+def FactorsTables (st : Segs) : Prop := ∀ x ∈ st.factors, isTable x.1 = true
+
+/-- every registered factor is a factor of one of the conditions `Q` registered so far -/
+def FromSeen (len : Bool) (Q : List Feature) (st : Segs) : Prop :=
+  ∀ x ∈ st.factors, ∃ p ∈ Q, ∃ m, factorsOf len p = .ok m ∧ x ∈ m
+
+/-- every factor registered for one of the origins `ts` is a factor of a condition in `P` -/
+def Justified (len : Bool) (P : List Feature) (st : Segs) (ts : List Source) : Prop :=
+  ∀ x ∈ st.factors, x.1 ∈ ts → ∃ p ∈ P, ∃ m, factorsOf len p = .ok m ∧ x ∈ m
+
+theorem FromSeen.mono {len : Bool} {Q Q' : List Feature} {st : Segs} (h : FromSeen len Q st) (hq : ∀ p ∈ Q, p ∈ Q') :
+    FromSeen len Q' st := fun x hx => by
+  obtain ⟨p, hp, m, hm, hxm⟩ := h x hx
+  exact ⟨p, hq p hp, m, hm, hxm⟩
+
+theorem factorsTables_joinCtx {fix len : Bool} {st : Segs} (l r : Source) (k : JoinKind) (c : FeatureOpt)
+    (h : FactorsTables st) : FactorsTables (joinCtx fix len st l r k c) := by
+  intro x hx
+  rcases joinCtx_factors_mem hx with ⟨hx, _⟩ | ⟨p, _, m, hm, hxm, _⟩
+  · exact h x hx
+  · exact factor_isTable hm hxm
+
+theorem fromSeen_joinCtx {fix len : Bool} {Q : List Feature} {st : Segs} (l r : Source) (k : JoinKind) (c : FeatureOpt)
+    (h : FromSeen len Q st) : FromSeen len (optList c ++ Q) (joinCtx fix len st l r k c) := by
+  intro x hx
+  rcases joinCtx_factors_mem hx with ⟨hx, _⟩ | ⟨p, hp, m, hm, hxm, _⟩
+  · obtain ⟨p, hp, m, hm, hxm⟩ := h x hx
+    exact ⟨p, by simp [hp], m, hm, hxm⟩
+  · exact ⟨p, by simp [hp], m, hm, hxm⟩
+
+theorem queryCtx_factors_mem {fix len : Bool} {err : Option Err} {src : Source} {sel : Features} {pre : FeatureOpt}
+    {grp : Features} {post : FeatureOpt} {ord : Orderings} {x : Source × Feature}
+    (hx : x ∈ (queryCtx fix len err src sel pre grp post ord).factors) :
+    ∃ p ∈ optList pre, ∃ m, factorsOf len p = .ok m ∧ x ∈ m := by
+  unfold queryCtx at hx
+  simp only [select_factors] at hx
+  rcases filterOpt_factors_mem hx with hx | ⟨p, hp, m, hm, hxm, _⟩
+  · simp at hx
+  · exact ⟨p, hp, m, hm, hxm⟩
+
+theorem justified_queryCtx (fix len : Bool) (err : Option Err) (src : Source) (sel : Features) (pre : FeatureOpt)
+    (grp : Features) (post : FeatureOpt) (ord : Orderings) (ts : List Source) :
+    Justified len (optList pre) (queryCtx fix len err src sel pre grp post ord) ts :=
+  fun _ hx _ => queryCtx_factors_mem hx
+
+theorem fromSeen_queryCtx (fix len : Bool) (err : Option Err) (src : Source) (sel : Features) (pre : FeatureOpt)
+    (grp : Features) (post : FeatureOpt) (ord : Orderings) :
+    FromSeen len (optList pre) (queryCtx fix len err src sel pre grp post ord) :=
+  fun _ hx => queryCtx_factors_mem hx
+
+theorem factorsTables_queryCtx (fix len : Bool) (err : Option Err) (src : Source) (sel : Features) (pre : FeatureOpt)
+    (grp : Features) (post : FeatureOpt) (ord : Orderings) :
+    FactorsTables (queryCtx fix len err src sel pre grp post ord) := fun _ hx => by
+  obtain ⟨p, _, m, hm, hxm⟩ := queryCtx_factors_mem hx
+  exact factor_isTable hm hxm
+
+/-! ### what visiting a source does to the state -/
+
+/-- tables, references to tables and statements leave the factors of the enclosing context alone -/
+theorem run_factors_closed (fix len : Bool) (S : Sem) (B : Backend) (db : Db) :
+    ∀ (s : Source) (st : Segs), grammarScoped s = true → (isTable s || isStmt s) = true →
+      (run fix len S B db s st).st.factors = st.factors
   | .table n fs, st, _, _ => by simp [run]
   | .ref i nm, st, _, h => by simp [isTable, isStmt] at h
   | .join l r k c, st, _, h => by simp [isTable, isStmt] at h
   | .set l r k, st, hw, _ => by
-    simp only [wellScoped, Bool.and_eq_true] at hw
+    simp only [grammarScoped, Bool.and_eq_true] at hw
     simp only [run]
-    rw [run_factors_closed len S B db r _ hw.2 (by simp [hw.1.1.2]),
-      run_factors_closed len S B db l _ hw.1.2 (by simp [hw.1.1.1])]
+    rw [run_factors_closed fix len S B db r _ hw.2 (by simp [hw.1.1.2]),
+      run_factors_closed fix len S B db l _ hw.1.2 (by simp [hw.1.1.1])]
   | .query src sel pre grp post ord rows, st, _, _ => by simp [run]
 
+theorem run_ref_factors (fix len : Bool) (S : Sem) (B : Backend) (db : Db) (i : Source) (nm : String) (st : Segs)
+    (hw : grammarScoped (.ref i nm) = true) : (run fix len S B db (.ref i nm) st).st.factors = st.factors := by
+  simp only [grammarScoped, Bool.and_eq_true] at hw
+  simp only [run]
+  by_cases ht : isTable i = true
+  · simp [ht]
+  · simp only [ht, Bool.false_eq_true, if_false]
+    exact run_factors_closed fix len S B db i st hw.2 hw.1
+
 /-- visiting a source only adds factors for tables among its own origins -/
-theorem run_factors (len : Bool) (S : Sem) (B : Backend) (db : Db) :
-    ∀ (s : Source) (st : Segs), wellScoped s = true → joinsScoped s = true →
-      ∀ x ∈ (run len S B db s st).st.factors, x ∈ st.factors ∨ x.1 ∈ origins s
+theorem run_factors (fix len : Bool) (S : Sem) (B : Backend) (db : Db) :
+    ∀ (s : Source) (st : Segs), grammarScoped s = true → joinsScoped s = true →
+      ∀ x ∈ (run fix len S B db s st).st.factors, x ∈ st.factors ∨ x.1 ∈ origins s
   | .table n fs, st, _, _, x, hx => by
     simp only [run] at hx
     exact Or.inl hx
   | .ref i nm, st, hw, _, x, hx => by
-    simp only [wellScoped, Bool.and_eq_true] at hw
-    simp only [run] at hx
-    rw [run_factors_closed len S B db i st hw.2 hw.1] at hx
+    rw [run_ref_factors fix len S B db i nm st hw] at hx
     exact Or.inl hx
   | .join l r k c, st, hw, hj, x, hx => by
-    simp only [wellScoped, Bool.and_eq_true] at hw
+    simp only [grammarScoped, Bool.and_eq_true] at hw
     simp only [joinsScoped, Bool.and_eq_true] at hj
     simp only [run] at hx
     simp only [origins, List.mem_append]
-    rcases run_factors len S B db r _ hw.2 hj.2 x hx with hx | hx
-    · rcases run_factors len S B db l _ hw.1 hj.1.2 x hx with hx | hx
-      · rcases filterOpt_factors_mem hx with hx | ⟨p, hp, m, hm, hxm⟩
+    rcases run_factors fix len S B db r _ hw.2 hj.2 x hx with hx | hx
+    · rcases run_factors fix len S B db l _ hw.1 hj.1.2 x hx with hx | hx
+      · rcases joinCtx_factors_mem hx with ⟨hx, _⟩ | ⟨p, hp, m, hm, hxm, _⟩
         · exact Or.inl hx
-        · obtain ⟨n, hn⟩ := factor_table_mem hm hxm
-          have := scopedIn_mem hj.1.1 (elemsAll_optList hp hn)
-          exact Or.inr (by simpa using this)
+        · exact Or.inr (factor_in_scope hj.1.1 hp hm hxm)
       · exact Or.inr (Or.inl hx)
     · exact Or.inr (Or.inr hx)
   | .set l r k, st, hw, _, x, hx => by
-    rw [run_factors_closed len S B db (.set l r k) st hw (by simp [isStmt])] at hx
+    rw [run_factors_closed fix len S B db (.set l r k) st hw (by simp [isStmt])] at hx
     exact Or.inl hx
   | .query src sel pre grp post ord rows, st, _, _, x, hx => by
     simp only [run] at hx
     exact Or.inl hx
 
-/-- the environments of an inner-join tree bind exactly its origins, in order -/
-theorem run_dom (len : Bool) (S : Sem) (B : Backend) (db : Db) :
-    ∀ (s : Source) (st : Segs), innerOnly s = true → ∀ e ∈ (run len S B db s st).envs, dom e = origins s
-  | .table n fs, st, _, e, he => by
-    simp only [run, List.mem_map] at he
-    obtain ⟨r, _, rfl⟩ := he
-    simp [dom, origins]
-  | .ref i nm, st, _, e, he => by
-    simp only [run, List.mem_map] at he
-    obtain ⟨r, _, rfl⟩ := he
-    simp [dom, origins, rebind]
-  | .join l r k c, st, hi, e, he => by
-    simp only [innerOnly, Bool.and_eq_true, Bool.or_eq_true, beq_iff_eq] at hi
-    simp only [run] at he
-    have hmem : e ∈ (prod (run len S B db l (st.filterOpt len c)).envs
-        (run len S B db r (run len S B db l (st.filterOpt len c)).st).envs) := by
-      rcases hi.1.1 with rfl | rfl <;> exact (List.mem_filter.mp he).1
-    simp only [prod, List.mem_flatMap, List.mem_map] at hmem
-    obtain ⟨el, hel, er, her, rfl⟩ := hmem
-    rw [dom_append, run_dom len S B db l _ hi.1.2 el hel, run_dom len S B db r _ hi.2 er her]
-    simp [origins]
-  | .set l r k, st, _, e, he => by
-    simp only [run, List.mem_map] at he
-    obtain ⟨r, _, rfl⟩ := he
-    simp [dom, origins]
-  | .query src sel pre grp post ord rows, st, _, e, he => by
-    simp only [run, List.mem_map] at he
-    obtain ⟨r, _, rfl⟩ := he
-    simp [dom, origins]
+/-- visiting a join tree keeps the invariants: factors belong to tables and come from the conditions registered so
+far, which now include the conditions of the tree -/
+theorem run_invariants (fix len : Bool) (S : Sem) (B : Backend) (db : Db) :
+    ∀ (s : Source) (Q : List Feature) (st : Segs), grammarScoped s = true → FactorsTables st → FromSeen len Q st →
+      FactorsTables (run fix len S B db s st).st ∧ FromSeen len (condsOf s ++ Q) (run fix len S B db s st).st
+  | .table n fs, Q, st, _, ht, hq => by
+    simpa [run, condsOf] using And.intro ht hq
+  | .ref i nm, Q, st, hw, ht, hq => by
+    have := run_ref_factors fix len S B db i nm st hw
+    refine ⟨fun x hx => ht x (this ▸ hx), fun x hx => ?_⟩
+    simpa [condsOf] using hq x (this ▸ hx)
+  | .join l r k c, Q, st, hw, ht, hq => by
+    simp only [grammarScoped, Bool.and_eq_true] at hw
+    simp only [run, condsOf]
+    have h1 := run_invariants fix len S B db l (optList c ++ Q) (joinCtx fix len st l r k c) hw.1
+      (factorsTables_joinCtx l r k c ht) (fromSeen_joinCtx l r k c hq)
+    have h2 := run_invariants fix len S B db r _ _ hw.2 h1.1 h1.2
+    exact ⟨h2.1, h2.2.mono (fun p hp => by
+      simp only [List.mem_append] at hp ⊢
+      rcases hp with h | h | h | h <;> simp [h])⟩
+  | .set l r k, Q, st, hw, ht, hq => by
+    have := run_factors_closed fix len S B db (.set l r k) st hw (by simp [isStmt])
+    refine ⟨fun x hx => ht x (this ▸ hx), fun x hx => ?_⟩
+    simpa [condsOf] using hq x (this ▸ hx)
+  | .query src sel pre grp post ord rows, Q, st, _, ht, hq => by
+    simp only [run, condsOf, List.nil_append]
+    exact ⟨fun x hx => ht x hx, fun x hx => hq x hx⟩
 
 /-- the parser state and the offered hints do not depend on the semantics, the back-end or the data -/
-theorem run_indep (len : Bool) (S1 S2 : Sem) (B1 B2 : Backend) (db1 db2 : Db) :
+theorem run_indep (fix len : Bool) (S1 S2 : Sem) (B1 B2 : Backend) (db1 db2 : Db) :
     ∀ (s : Source) (st : Segs),
-      (run len S1 B1 db1 s st).st = (run len S2 B2 db2 s st).st ∧
-      (run len S1 B1 db1 s st).hints = (run len S2 B2 db2 s st).hints
+      (run fix len S1 B1 db1 s st).st = (run fix len S2 B2 db2 s st).st ∧
+      (run fix len S1 B1 db1 s st).hints = (run fix len S2 B2 db2 s st).hints
   | .table n fs, st => by simp [run]
   | .ref i nm, st => by
     simp only [run]
-    exact run_indep len S1 S2 B1 B2 db1 db2 i st
+    by_cases ht : isTable i = true
+    · simp [ht]
+    · simp only [ht, Bool.false_eq_true, if_false]
+      exact run_indep fix len S1 S2 B1 B2 db1 db2 i st
   | .join l r k c, st => by
     simp only [run]
-    have ha := run_indep len S1 S2 B1 B2 db1 db2 l (st.filterOpt len c)
-    have hb := run_indep len S1 S2 B1 B2 db1 db2 r (run len S2 B2 db2 l (st.filterOpt len c)).st
+    have ha := run_indep fix len S1 S2 B1 B2 db1 db2 l (joinCtx fix len st l r k c)
+    have hb := run_indep fix len S1 S2 B1 B2 db1 db2 r (run fix len S2 B2 db2 l (joinCtx fix len st l r k c)).st
     rw [ha.1, ha.2, hb.1, hb.2]
     exact ⟨rfl, rfl⟩
   | .set l r k, st => by
     simp only [run]
-    have ha := run_indep len S1 S2 B1 B2 db1 db2 l st
-    have hb := run_indep len S1 S2 B1 B2 db1 db2 r (run len S2 B2 db2 l st).st
+    have ha := run_indep fix len S1 S2 B1 B2 db1 db2 l st
+    have hb := run_indep fix len S1 S2 B1 B2 db1 db2 r (run fix len S2 B2 db2 l st).st
     rw [ha.1, ha.2, hb.1, hb.2]
     exact ⟨rfl, rfl⟩
   | .query src sel pre grp post ord rows, st => by
     simp only [run]
-    have ha := run_indep len S1 S2 B1 B2 db1 db2 src (queryCtx len st.err src sel pre grp post ord)
+    have ha := run_indep fix len S1 S2 B1 B2 db1 db2 src (queryCtx fix len st.err src sel pre grp post ord)
     exact ⟨by rw [ha.1], ha.2⟩
 
-
-/-- every factor registered so far belongs to a table of the enclosing query -/
-def FactorsWithin (st : Segs) (O : List Source) : Prop := ∀ x ∈ st.factors, x.1 ∈ O
-
-/-- every factor registered for one of the tables `ts` is a factor of a condition in `P` -/
-def Justified (len : Bool) (P : List Feature) (st : Segs) (ts : List Source) : Prop :=
-  ∀ x ∈ st.factors, x.1 ∈ ts → ∃ p ∈ P, ∃ m, factorsOf len p = .ok m ∧ x ∈ m
+/-! ### the offered filter on one row -/
 
 theorem get_of_row {e : Env} {t : Source} {r : Row} (h : e.row t = r) (n : String) : e.get t n = r.get n := by
   simp [Env.get, h]
 
 /-- a row rejected by the offered filter is doomed by the condition the failing factor came from -/
 theorem doomed_of_not_passes (len : Bool) (S : Sem) {P : List Feature} {st : Segs} {t : Source}
-    (hj : Justified len P st [t]) {r : Row} (hp : passes S (hintOf st t) r = false) : Doomed S P [(t, r)] := by
+    (hj : Justified len P st [t]) {r : Row} (hp : passes S (hintOf st t t) r = false) : Doomed S P [(t, r)] := by
   unfold passes at hp
   simp only [Bool.or_eq_false_iff] at hp
   obtain ⟨hne, hall⟩ := hp
-  have hne' : (hintOf st t).pred ≠ [] := by
+  have hne' : (hintOf st t t).pred ≠ [] := by
     intro h
     simp [h] at hne
   obtain ⟨f, hf⟩ := List.exists_mem_of_ne_nil _ hne'
@@ -226,188 +316,54 @@ theorem doomed_of_not_passes (len : Bool) (S : Sem) {P : List Feature} {st : Seg
   rw [h2] at h1
   simp [holds, h1] at h3
 
-theorem noAliased_mem {O : List Source} (h : noAliasedScan O = true) {i : Source} {nm : String}
-    (hr : Source.ref i nm ∈ O) (ht : isTable i = true) : i ∉ O := by
-  unfold noAliasedScan at h
+/-- a segment without factors offers no filter -/
+theorem hint_pred_nil {st : Segs} {k t : Source} (h : ∀ f, (k, f) ∉ st.factors) : (hintOf st k t).pred = [] := by
+  simp only [hintOf]
+  apply List.eq_nil_iff_forall_not_mem.mpr
+  intro f hf
+  simp only [List.mem_map, List.mem_filter] at hf
+  obtain ⟨x, ⟨hx, hxt⟩, rfl⟩ := hf
+  have : x.1 = k := by simpa using hxt
+  apply h x.2
+  cases x
+  simp_all
+
+theorem passes_of_pred_nil (S : Sem) {h : Hint} (hp : h.pred = []) (r : Row) : passes S h r = true := by
+  simp [passes, hp]
+
+theorem noFactorFor_spec {len : Bool} {P : List Feature} {os : List Source} (h : noFactorFor len P os = true)
+    {o : Source} (ho : o ∈ os) {p : Feature} (hp : p ∈ P) {m : FMap} (hm : factorsOf len p = .ok m) {f : Feature} :
+    (o, f) ∉ m := by
+  intro hf
+  unfold noFactorFor at h
   rw [List.all_eq_true] at h
-  have := h _ hr
-  simp only [ht, Bool.true_and, Bool.not_eq_true', List.contains_eq_mem, decide_eq_false_iff_not] at this
-  exact this
+  have := h o ho
+  rw [List.all_eq_true] at this
+  have := this p hp
+  simp only [factorTables, hm, Bool.not_eq_true', List.contains_eq_mem, decide_eq_false_iff_not, List.mem_map, not_exists,
+    not_and] at this
+  exact this (o, f) hf rfl
 
-theorem passes_of_no_factor (S : Sem) {st : Segs} {t : Source} (h : ∀ f, (t, f) ∉ st.factors) (r : Row) :
-    passes S (hintOf st t) r = true := by
-  have : (hintOf st t).pred = [] := by
-    simp only [hintOf]
-    apply List.eq_nil_iff_forall_not_mem.mpr
-    intro f hf
-    simp only [List.mem_map, List.mem_filter] at hf
-    obtain ⟨x, ⟨hx, hxt⟩, rfl⟩ := hf
-    have : x.1 = t := by simpa using hxt
-    apply h x.2
-    cases x
-    simp_all
-  simp [passes, this]
+theorem noFactorFor_spec' {len : Bool} {P : List Feature} {os : List Source} (h : noFactorFor len P os = true)
+    {x : Source × Feature} (ho : x.1 ∈ os) {p : Feature} (hp : p ∈ P) {m : FMap} (hm : factorsOf len p = .ok m) :
+    x ∉ m := by
+  obtain ⟨o, f⟩ := x
+  exact noFactorFor_spec h ho hp hm
 
-theorem prune_prod {S : Sem} {P : List Feature} {ol orr : List Source} {L' L R' R : List Env}
-    (hL : Prune (Doomed S P) L' L) (hR : Prune (Doomed S P) R' R)
-    (hdl : ∀ e ∈ L, dom e = ol) (hdr : ∀ e ∈ R, dom e = orr) (hdisj : ∀ o ∈ orr, o ∉ ol) :
-    Prune (Doomed S P) (prod L' R') (prod L R) := by
-  unfold prod
-  refine Prune.flatMap _ _ hL ?_ ?_
-  · intro el hel
-    refine Prune.map _ hR ?_
-    intro er her hd
-    exact hd.append_right el (by rw [hdr er her, hdl el hel]; exact hdisj)
-  · intro el _ hd b hb
-    obtain ⟨er, _, rfl⟩ := List.mem_map.mp hb
-    exact hd.append_left er
-
-
-theorem justified_queryCtx (len : Bool) (err : Option Err) (src : Source) (sel : Features) (pre : FeatureOpt)
-    (grp : Features) (post : FeatureOpt) (ord : Orderings) (ts : List Source) :
-    Justified len (optList pre) (queryCtx len err src sel pre grp post ord) ts := by
-  intro x hx _
-  unfold queryCtx at hx
-  simp only [select_factors] at hx
-  rcases filterOpt_factors_mem hx with hx | hx
-  · simp at hx
-  · exact hx
-
-theorem within_queryCtx (len : Bool) (err : Option Err) (src : Source) (sel : Features) (pre : FeatureOpt)
-    (grp : Features) (post : FeatureOpt) (ord : Orderings) (hs : scopedIn (origins src) (optList pre) = true) :
-    FactorsWithin (queryCtx len err src sel pre grp post ord) (origins src) := by
-  intro x hx
-  obtain ⟨p, hp, m, hm, hxm⟩ := justified_queryCtx len err src sel pre grp post ord [x.1] x hx (by simp)
-  obtain ⟨n, hn⟩ := factor_table_mem hm hxm
-  simpa using scopedIn_mem hs (elemsAll_optList hp hn)
-
-
-/-- **Pushing the offered row filters into the scans of an inner-join tree only removes rows the pending conditions
-reject anyway; a statement as a whole yields the same rows.** -/
-theorem run_prune (len : Bool) (S : Sem) (db : Db) :
-    ∀ (s : Source), innerOnly s = true → wellScoped s = true →
-      (∀ (O : List Source) (P : List Feature) (st : Segs), joinsScoped s = true → (origins s).Nodup →
-          (∀ o ∈ origins s, o ∈ O) → noAliasedScan O = true → FactorsWithin st O → Justified len P st (origins s) →
-          Prune (Doomed S P) (run len S .honourRows db s st).envs (run len S .ignore db s st).envs)
-      ∧ (isStmt s = true → ∀ st, (run len S .honourRows db s st).envs = (run len S .ignore db s st).envs)
-  | .table n fs, _, _ => by
-    refine ⟨?_, by simp [isStmt]⟩
-    intro O P st _ _ _ _ _ hj
-    simp only [run, Backend.honourRows, Backend.ignore]
-    refine Prune.map _ (Prune.of_filter (D := fun r => Doomed S P [(Source.table n fs, r)]) _ _ ?_) (fun _ _ h => h)
-    intro r _ hr
-    exact doomed_of_not_passes len S (by simpa [origins] using hj) hr
-  | .ref i nm, hi, hw => by
-    refine ⟨?_, by simp [isStmt]⟩
-    intro O P st _ _ hO hna hfw _
-    simp only [innerOnly] at hi
-    simp only [wellScoped, Bool.and_eq_true, Bool.or_eq_true] at hw
-    simp only [run]
-    apply Prune.of_eq
-    congr 1
-    rcases hw.1 with ht | hs
-    · cases i with
-      | table n fs =>
-        have hno : ∀ f, (Source.table n fs, f) ∉ st.factors := by
-          intro f hf
-          exact noAliased_mem hna (hO (.ref (.table n fs) nm) (by simp [origins])) ht (hfw _ hf)
-        simp only [run, Backend.honourRows, Backend.ignore]
-        congr 1
-        apply List.filter_eq_self.mpr
-        intro r _
-        exact passes_of_no_factor S hno r
-      | _ => simp [isTable] at ht
-    · exact (run_prune len S db i hi hw.2).2 hs st
-  | .join l r k c, hi, hw => by
-    refine ⟨?_, by simp [isStmt]⟩
-    intro O P st hjs hnd hO hna hfw hj
-    simp only [innerOnly, Bool.and_eq_true, Bool.or_eq_true, beq_iff_eq] at hi
-    simp only [wellScoped, Bool.and_eq_true] at hw
-    simp only [joinsScoped, Bool.and_eq_true] at hjs
-    simp only [origins, List.nodup_append] at hnd
-    have hOl : ∀ o ∈ origins l, o ∈ O := fun o ho => hO o (by simp [origins, ho])
-    have hOr : ∀ o ∈ origins r, o ∈ O := fun o ho => hO o (by simp [origins, ho])
-    -- state after registering the join condition
-    have hfw1 : FactorsWithin (st.filterOpt len c) O := by
-      intro x hx
-      rcases filterOpt_factors_mem hx with hx | ⟨p, hp, m, hm, hxm⟩
-      · exact hfw x hx
-      · obtain ⟨n, hn⟩ := factor_table_mem hm hxm
-        have := scopedIn_mem hjs.1.1 (elemsAll_optList hp hn)
-        exact hO _ (by simpa [origins] using this)
-    have hj1 : ∀ ts, (∀ t ∈ ts, t ∈ origins (.join l r k c)) →
-        Justified len (optList c ++ P) (st.filterOpt len c) ts := by
-      intro ts hts x hx hxt
-      rcases filterOpt_factors_mem hx with hx | ⟨p, hp, m, hm, hxm⟩
-      · obtain ⟨p, hp, m, hm, hxm⟩ := hj x hx (hts _ hxt)
-        exact ⟨p, by simp [hp], m, hm, hxm⟩
-      · exact ⟨p, by simp [hp], m, hm, hxm⟩
-    have iha := (run_prune len S db l hi.1.2 hw.1).1 O (optList c ++ P) (st.filterOpt len c) hjs.1.2 hnd.1 hOl hna hfw1
-      (hj1 _ (fun t ht => by simp [origins, ht]))
-    -- state after visiting the left side (the same for both back-ends)
-    have hst : (run len S .honourRows db l (st.filterOpt len c)).st = (run len S .ignore db l (st.filterOpt len c)).st :=
-      (run_indep len S S .honourRows .ignore db db l _).1
-    have hfw2 : FactorsWithin (run len S .ignore db l (st.filterOpt len c)).st O := by
-      intro x hx
-      rcases run_factors len S .ignore db l _ hw.1 hjs.1.2 x hx with hx | hx
-      · exact hfw1 x hx
-      · exact hOl _ hx
-    have hj2 : Justified len (optList c ++ P) (run len S .ignore db l (st.filterOpt len c)).st (origins r) := by
-      intro x hx hxt
-      rcases run_factors len S .ignore db l _ hw.1 hjs.1.2 x hx with hx | hx
-      · exact hj1 (origins r) (fun t ht => by simp [origins, ht]) x hx hxt
-      · exact absurd rfl (hnd.2.2 _ hx _ hxt)
-    have ihb := (run_prune len S db r hi.2 hw.2).1 O (optList c ++ P) _ hjs.2 hnd.2.1 hOr hna hfw2 hj2
-    simp only [run]
-    rw [hst]
-    have hprod := prune_prod iha ihb (run_dom len S .ignore db l _ hi.1.2) (run_dom len S .ignore db r _ hi.2)
-      (fun o ho hol => hnd.2.2 o hol o ho rfl)
-    have hfil := hprod.filter (fun e => holdsOpt S e c)
-    have hres : Prune (Doomed S P)
-        ((prod (run len S .honourRows db l (st.filterOpt len c)).envs
-          (run len S .honourRows db r (run len S .ignore db l (st.filterOpt len c)).st).envs).filter (fun e => holdsOpt S e c))
-        ((prod (run len S .ignore db l (st.filterOpt len c)).envs
-          (run len S .ignore db r (run len S .ignore db l (st.filterOpt len c)).st).envs).filter (fun e => holdsOpt S e c)) := by
-      refine hfil.mono ?_
-      intro e he hd
-      have hon := (List.mem_filter.mp he).2
-      cases c with
-      | none => simpa [optList] using hd
-      | some c => exact Doomed.not_holds (by simpa [optList] using hd) (by simpa [holdsOpt] using hon)
-    rcases hi.1.1 with rfl | rfl <;> simpa [joinRows] using hres
-  | .set l r k, hi, hw => by
-    simp only [innerOnly, Bool.and_eq_true] at hi
-    simp only [wellScoped, Bool.and_eq_true] at hw
-    have heq : ∀ st, (run len S .honourRows db (.set l r k) st).envs = (run len S .ignore db (.set l r k) st).envs := by
-      intro st
-      simp only [run]
-      rw [(run_prune len S db l hi.1 hw.1.2).2 hw.1.1.1 st, (run_indep len S S .honourRows .ignore db db l st).1,
-        (run_prune len S db r hi.2 hw.2).2 hw.1.1.2 _]
-    exact ⟨fun _ _ st _ _ _ _ _ _ => Prune.of_eq (heq st), fun _ => heq⟩
-  | .query src sel pre grp post ord rows, hi, hw => by
-    simp only [innerOnly] at hi
-    simp only [wellScoped, Bool.and_eq_true, decide_eq_true_eq] at hw
-    have heq : ∀ st, (run len S .honourRows db (.query src sel pre grp post ord rows) st).envs =
-        (run len S .ignore db (.query src sel pre grp post ord rows) st).envs := by
-      intro st
-      simp only [run]
-      have hp := (run_prune len S db src hi hw.2).1 (origins src) (optList pre)
-        (queryCtx len st.err src sel pre grp post ord) hw.1.1.1.2 hw.1.1.1.1 (fun o ho => ho) hw.1.2
-        (within_queryCtx len st.err src sel pre grp post ord hw.1.1.2)
-        (justified_queryCtx len st.err src sel pre grp post ord (origins src))
-      have hk := hp.filter_eq (fun e => holdsOpt S e pre) (by
-        intro e _ hd
-        cases pre with
-        | none =>
-          obtain ⟨p, hp, _⟩ := hd
-          simp [optList] at hp
-        | some p =>
-          obtain ⟨q, hq, hf⟩ := hd
-          simp only [optList, List.mem_singleton] at hq
-          subst hq
-          have := hf e (Extends.refl e)
-          simpa [holdsOpt, holds] using this)
-      rw [hk]
-    exact ⟨fun _ _ st _ _ _ _ _ _ => Prune.of_eq (heq st), fun _ => heq⟩
+/-- the scan behind a reference to a table is offered no filter: its own segment never holds a factor in the repaired
+code, and in the code that exists the statement is outside the region of C14-F2 -/
+theorem ref_pred_nil {fix len : Bool} {Q : List Feature} {st : Segs} {i : Source} {nm : String}
+    (ht : FactorsTables st) (hq : FromSeen len Q st) (hs : (fix || noFactorFor len Q [i]) = true) :
+    (hintOf st (keyOf fix (.ref i nm)) i).pred = [] := by
+  apply hint_pred_nil
+  intro f hf
+  cases fix with
+  | true =>
+    have := ht _ hf
+    simp [keyOf, isTable] at this
+  | false =>
+    simp only [Bool.false_or] at hs
+    obtain ⟨p, hp, m, hm, hxm⟩ := hq _ hf
+    exact noFactorFor_spec (o := i) hs (by simp) hp hm (by simpa [keyOf, inst] using hxm)
 
 end ForML.PushDown
